@@ -366,3 +366,49 @@ Proof.
     specialize (Hb _ Hi). lra.
   - destruct H as [H|H]; [exact H|]. now apply sorted_const_of_rev.
 Qed.
+
+(* ---------- the window respects elementwise == ---------- *)
+Lemma trapz_F2 ys ys' : Forall2 Qeq ys ys' -> forall xs xs', Forall2 Qeq xs xs' -> trapz ys xs == trapz ys' xs'.
+Proof.
+  induction 1 as [|y0 y0' yr yr' E0 Hr IH]; intros xs xs' Hx; [reflexivity|].
+  destruct Hr as [|y1 y1' yr yr' E1 Hr]; [reflexivity|].
+  destruct Hx as [|x0 x0' xr xr' Ex0 Hxr]; [reflexivity|].
+  destruct Hxr as [|x1 x1' xr xr' Ex1 Hxr]; [reflexivity|].
+  rewrite !trapz_cons2. rewrite (IH (x1 :: xr) (x1' :: xr')) by (constructor; assumption).
+  rewrite E0, E1, Ex0, Ex1. reflexivity.
+Qed.
+Lemma F2_firstn (l l' : list Q) : Forall2 Qeq l l' -> forall k, Forall2 Qeq (firstn k l) (firstn k l').
+Proof. induction 1; intros [|k]; simpl; constructor; auto. Qed.
+Lemma F2_skipn (l l' : list Q) : Forall2 Qeq l l' -> forall k, Forall2 Qeq (skipn k l) (skipn k l').
+Proof. induction 1; intros [|k]; simpl; auto. Qed.
+Lemma F2_nth (l l' : list Q) : Forall2 Qeq l l' -> forall k, nth k l 0 == nth k l' 0.
+Proof. induction 1; intros [|k]; simpl; auto; reflexivity. Qed.
+Lemma F2_len (l l' : list Q) : Forall2 Qeq l l' -> len l = len l'.
+Proof. induction 1; [reflexivity|]. rewrite !len_cons. lia. Qed.
+Lemma F2_count (f : Q -> bool) (l l' : list Q) :
+  (forall a b, a == b -> f a = f b) -> Forall2 Qeq l l' -> count f l = count f l'.
+Proof. intros Hf. induction 1 as [|a b r r' E _ IH]; simpl; [reflexivity|]. now rewrite (Hf a b E), IH. Qed.
+Lemma F2_slice (l l' : list Q) a b : Forall2 Qeq l l' -> Forall2 Qeq (slice l a b) (slice l' a b).
+Proof. intros H. unfold slice. apply F2_firstn, F2_skipn, H. Qed.
+Lemma F2_map (f g : Q -> Q) l : (forall t, f t == g t) -> Forall2 Qeq (map f l) (map g l).
+Proof. intros H. induction l; simpl; constructor; auto. Qed.
+Lemma F2_refl (l : list Q) : Forall2 Qeq l l.
+Proof. induction l; constructor; auto. reflexivity. Qed.
+Lemma F2_rev (l l' : list Q) : Forall2 Qeq l l' -> Forall2 Qeq (rev l) (rev l').
+Proof. induction 1; simpl; [constructor|]. apply Forall2_app; [assumption|]. constructor; [assumption|constructor]. Qed.
+
+Lemma window_F2 X X' Y Y' lo up : Forall2 Qeq X X' -> Forall2 Qeq Y Y' ->
+  window X Y lo up == window X' Y' lo up.
+Proof.
+  intros HX HY. unfold window, wleft, wright. cbv zeta.
+  rewrite (F2_count (fun v => Qltb v lo) X X') by
+    (try exact HX; intros a b E; destruct (Qltb a lo) eqn:E1, (Qltb b lo) eqn:E2; qb; try reflexivity; lra).
+  rewrite (F2_count (fun v => Qleb v up) X X') by
+    (try exact HX; intros a b E; destruct (Qleb a up) eqn:E1, (Qleb b up) eqn:E2; qb; try reflexivity; lra).
+  rewrite (F2_len Y Y' HY).
+  apply trapz_F2.
+  - apply Forall2_app; [constructor; [apply F2_nth, HY|constructor]|].
+    apply Forall2_app; [apply F2_slice, HY|]. constructor; [apply F2_nth, HY|constructor].
+  - apply Forall2_app; [constructor; [reflexivity|constructor]|].
+    apply Forall2_app; [apply F2_slice, HX|]. constructor; [reflexivity|constructor].
+Qed.
